@@ -1,6 +1,164 @@
+(* C09 - Barrier releases a generation only when every participant has arrived.
+   Statements only; every proof is `exact <lemma>` into Proofs/BarrierProofs.v.
+   All theorems quantify over the initial threshold n, any number of threads with any programs
+   satisfying the client obligation wf_prog (the participants are exactly the n threads; each
+   performs some wait()s optionally followed by one final wait_and_drop()), every reachable state
+   (R n progs s: s = run (init n progs) sched for some schedule, of any length, including spurious
+   wake-ups, choice 1).
+   Ghost per-thread state: arr l = number of arrivals thread l has made (= decrements of count_ it
+   performed = operations of its program past their lock step, barrier_arrivals_count_ops),
+   dropped l = it has performed the --threshold_ of wait_and_drop. *)
 From Coq Require Import List Arith ZArith Lia Bool.
 Import ListNotations.
 From GV Require Import Sched Events BarrierModel BarrierProofs.
 Local Open Scope Z_scope.
-Example barrier_wf_example : wf_prog 3 [[Wait; Wait]; [Wait; WaitAndDrop]; [WaitAndDrop]] = true.
-Proof. vm_compute. reflexivity. Qed.
+
+(* Safety.  Whenever a step of thread t emits the return event of a wait / wait_and_drop - its
+   (arr l)-th - every participant u has made at least as many arrivals, or has dropped out in an
+   earlier generation (its last arrival, a wait_and_drop, has a smaller number). *)
+Theorem barrier_safe : forall n progs s t c l g' l' es,
+  wf_prog n progs = true -> R n progs s -> nth_error (thr s) t = Some l ->
+  tstep t c (gl s) l = Some (g', l', es) -> In ret_ev es ->
+  forall u lu, nth_error (thr s) u = Some lu ->
+    (arr l <= arr lu)%nat \/ (dropped lu = true /\ (arr lu < arr l)%nat).
+Proof. exact wait_returns_after_all. Qed.
+
+(* the ghost counter is tied to the client program: prog0 is thread u's program, and arr counts the
+   operations of it whose arrival has been made (todo = the operations not yet past their lock step) *)
+Theorem barrier_arrivals_count_ops : forall n progs s u l,
+  wf_prog n progs = true -> R n progs s -> nth_error (thr s) u = Some l ->
+  nth_error progs u = Some (prog0 l) /\ length (prog0 l) = (arr l + length (todo l))%nat.
+Proof. exact arrivals_count_ops. Qed.
+
+(* Drop bookkeeping.  threshold_ is the number of participants that have not dropped; count_ is the
+   number of those that have not yet arrived in the current generation; 0 <= count <= threshold and
+   1 <= count whenever a participant is left; neither unsigned decrement ever wrapped. *)
+Theorem barrier_drop : forall n progs s, wf_prog n progs = true -> R n progs s ->
+  threshold (gl s) = Z.of_nat (num_active (thr s)) /\
+  count (gl s) = Z.of_nat (num_pending (generation (gl s)) (thr s)) /\
+  0 <= count (gl s) <= threshold (gl s) /\
+  (1 <= threshold (gl s) -> 1 <= count (gl s)) /\
+  wrapped (gl s) = false.
+Proof. exact drop_counts. Qed.
+
+(* One arrival (the step at the lock): it is the thread's (generation+1)-th arrival, made by a
+   participant that has not dropped; wait_and_drop lowers the threshold by one *before* counting,
+   so it counts as an arrival now and every later generation needs one arrival fewer; the last
+   arriver (count = 1) bumps the generation and resets count to the new threshold, every other
+   arriver lowers count by one and goes to sleep in the current generation. *)
+Theorem barrier_arrival_step : forall n progs s t c l k g' l' es,
+  wf_prog n progs = true -> R n progs s -> nth_error (thr s) t = Some l -> at_ l = B_lock k ->
+  tstep t c (gl s) l = Some (g', l', es) ->
+  arr l' = S (arr l) /\ lgen l' = generation (gl s) /\ dropped l = false /\ dropped l' = is_drop k /\
+  Z.of_nat (arr l) = generation (gl s) /\
+  threshold g' = threshold (gl s) - (if is_drop k then 1 else 0) /\ 0 <= threshold g' /\
+  ((count (gl s) = 1 /\ generation g' = generation (gl s) + 1 /\ count g' = threshold g' /\ at_ l' = B_notify) \/
+   (1 < count (gl s) /\ generation g' = generation (gl s) /\ count g' = count (gl s) - 1 /\ at_ l' = B_sleep)).
+Proof. exact arrival_step. Qed.
+
+(* No lost wake-up.  A thread blocked in cv.wait whose generation has passed (lGen <> generation_)
+   has been notified, or the owner of the mutex is the last arriver, about to notify_all, and it can move. *)
+Theorem barrier_no_lost_wakeup : forall n progs s u l,
+  wf_prog n progs = true -> R n progs s ->
+  nth_error (thr s) u = Some l -> at_ l = B_woken -> lgen l <> generation (gl s) ->
+  ~ In u (sleepers (gl s)) \/
+  exists a, mtx (gl s) = Some a /\ is_notify (pcof (thr s) a) = true /\ enabled glob loc tstep s a 0.
+Proof. exact no_lost_wakeup. Qed.
+
+(* ... a notified waiter can move as soon as the mutex is free, and its wake-up step leaves the
+   predicate loop (it does not go back to sleep) once its generation has passed *)
+Theorem barrier_notified_enabled : forall (s : sys glob loc) t l,
+  nth_error (thr s) t = Some l -> at_ l = B_woken ->
+  ~ In t (sleepers (gl s)) -> mtx (gl s) = None -> enabled glob loc tstep s t 0.
+Proof. exact notified_enabled. Qed.
+Theorem barrier_waiter_exits : forall t c g l g' l' es,
+  at_ l = B_woken -> lgen l <> generation g -> tstep t c g l = Some (g', l', es) -> at_ l' = B_unlock.
+Proof. exact woken_exits. Qed.
+
+Theorem barrier_mutex_holder_moves : forall n progs s a c,
+  wf_prog n progs = true -> R n progs s -> mtx (gl s) = Some a -> enabled glob loc tstep s a c.
+Proof. exact holder_enabled. Qed.
+
+(* Shape of the states in which nothing can move (except by a spurious wake-up): every thread has
+   finished its program, or sleeps un-notified in the current generation and there is a participant
+   that has not dropped, has finished its program, and has made fewer arrivals: the only deadlocks
+   are the client's (a participant whose program ended early). *)
+Theorem barrier_deadlock_shape : forall n progs s t l,
+  wf_prog n progs = true -> R n progs s -> quiescent glob loc tstep s -> nth_error (thr s) t = Some l ->
+  fin l = true \/
+  (at_ l = B_woken /\ In t (sleepers (gl s)) /\ lgen l = generation (gl s) /\
+   exists u lu, nth_error (thr s) u = Some lu /\ fin lu = true /\ dropped lu = false /\ (arr lu < arr l)%nat).
+Proof. exact quiescent_shape. Qed.
+
+(* When the last one arrives all are released: in such a state a thread t is not left inside a wait
+   once every participant that has not dropped has made as many arrivals as t. *)
+Theorem barrier_releases_all : forall n progs s t l,
+  wf_prog n progs = true -> R n progs s -> quiescent glob loc tstep s -> nth_error (thr s) t = Some l ->
+  (forall u lu, nth_error (thr s) u = Some lu -> dropped lu = false -> (arr l <= arr lu)%nat) ->
+  fin l = true.
+Proof. exact released_when_all_arrived. Qed.
+
+(* Generation after generation: when every participant performs the same number K of generations
+   unless it drops out earlier (balanced), a state in which nothing moves is one in which every
+   program has finished ... *)
+Theorem barrier_generation_completes : forall n progs K s,
+  wf_prog n progs = true -> balanced K progs = true ->
+  R n progs s -> quiescent glob loc tstep s -> all_fin glob loc fin s = true.
+Proof. exact generation_completes. Qed.
+
+(* ... and such a state is reached: schedules without spurious wake-ups make at most mu(s) moves *)
+Theorem barrier_bounded_work : forall n progs s sc,
+  wf_prog n progs = true -> R n progs s -> sched_ok no_spurious sc -> (moves glob loc tstep s sc <= mu s)%nat.
+Proof. exact bounded_work. Qed.
+
+(* ---------- non-vacuity: the hypotheses are met by concrete programs and reachable states ---------- *)
+(* three participants; thread 1 drops out in generation 2, thread 2 in generation 1 *)
+Definition ex_progs := [[Wait; Wait; Wait]; [Wait; WaitAndDrop]; [WaitAndDrop]].
+Example ex_wf : wf_prog 3 ex_progs = true /\ balanced 3 ex_progs = true.
+Proof. vm_compute. split; reflexivity. Qed.
+Example ex_not_wf : wf_prog 2 ex_progs = false /\ wf_prog 2 [[WaitAndDrop; Wait]; [Wait]] = false.
+Proof. vm_compute. split; reflexivity. Qed.
+
+Definition rep {A} (k : nat) (x : A) : list A := repeat x k.
+(* threads 0 and 1 arrive and sleep, thread 2 arrives last (dropping) and is about to notify *)
+Definition ex_sched : list (nat * nat) := (rep 3 (0,0) ++ rep 3 (1,0) ++ rep 2 (2,0))%nat.
+Definition ex_state := run glob loc tstep (init 3 ex_progs) ex_sched.
+
+Example ex_sleepers_and_notifier :
+  pcof (thr ex_state) 0 = B_woken /\ In 0%nat (sleepers (gl ex_state)) /\
+  (exists l, nth_error (thr ex_state) 0 = Some l /\ lgen l <> generation (gl ex_state)) /\
+  mtx (gl ex_state) = Some 2%nat /\ pcof (thr ex_state) 2 = B_notify /\
+  threshold (gl ex_state) = 2 /\ count (gl ex_state) = 2 /\ generation (gl ex_state) = 1.
+Proof. vm_compute. repeat split; auto. eexists; split; [reflexivity|discriminate]. Qed.
+
+(* thread 2 notifies and unlocks; thread 0 wakes up and is about to return from its first wait *)
+Example ex_wait_returns :
+  let s := run glob loc tstep ex_state [(2,0);(2,0);(0,0)]%nat in
+  exists l, nth_error (thr s) 0 = Some l /\
+            exists r, tstep 0 0 (gl s) l = Some r /\ In ret_ev (snd r) /\ arr l = 1%nat.
+Proof. vm_compute. eexists; split; [reflexivity|]. eexists; split; [reflexivity|]. cbn. auto. Qed.
+
+(* the fast thread 0 laps thread 1: it returns, re-enters and sleeps in generation 1 while thread 1
+   is still asleep (notified) in generation 0 *)
+Example ex_lapping :
+  let s := run glob loc tstep ex_state ([(2,0);(2,0)] ++ rep 6 (0,0))%nat in
+  (exists l0 l1, nth_error (thr s) 0 = Some l0 /\ nth_error (thr s) 1 = Some l1 /\
+     at_ l0 = B_woken /\ lgen l0 = 1 /\ arr l0 = 2%nat /\ at_ l1 = B_woken /\ lgen l1 = 0 /\ arr l1 = 1%nat) /\
+  generation (gl s) = 1 /\ count (gl s) = 1.
+Proof. vm_compute. split; [do 2 eexists; repeat split|split; reflexivity]. Qed.
+
+(* a complete run: three generations with 3, 2 and 1 participants *)
+Example ex_complete_run :
+  let s := run glob loc tstep (init 3 ex_progs) (rep 40 (0,0) ++ rep 40 (1,0) ++ rep 40 (2,0) ++ rep 40 (0,0) ++ rep 40 (1,0) ++ rep 40 (0,0))%nat in
+  all_fin glob loc fin s = true /\ threshold (gl s) = 1 /\ count (gl s) = 1 /\ generation (gl s) = 3.
+Proof. vm_compute. repeat split; reflexivity. Qed.
+
+(* a legitimate deadlock of an unbalanced (but wf) program: participant 1 stops after one generation *)
+Example ex_quiescent_deadlock :
+  let progs := [[Wait; Wait]; [Wait]] in
+  let s := run glob loc tstep (init 2 progs) (rep 3 (0,0) ++ rep 4 (1,0) ++ rep 6 (0,0))%nat in
+  wf_prog 2 progs = true /\
+  pcof (thr s) 0 = B_woken /\ In 0%nat (sleepers (gl s)) /\ mtx (gl s) = None /\
+  (exists l1, nth_error (thr s) 1 = Some l1 /\ fin l1 = true /\ dropped l1 = false /\ arr l1 = 1%nat) /\
+  (exists l0, nth_error (thr s) 0 = Some l0 /\ arr l0 = 2%nat /\ lgen l0 = generation (gl s)).
+Proof. vm_compute. repeat split; auto; eexists; repeat split. Qed.
